@@ -3,6 +3,8 @@ import ast
 
 from ..model import AnalysisError
 from ..lib import FV, decode_new, decode_call, phi_members, is_sym, is_const, is_str, strip_stores, stores_of
+from ..lib import (reached_iff, reached_implies, implies_reached, reached_iff_any, path_term, cond_equiv, cond_implies,  # noqa: F401
+                   else_stmts, branch_stmts, context_literals)
 from ..cfg import always_raises, walk_stmts
 from . import common as cm
 from . import geom
@@ -276,9 +278,7 @@ def d6_sampling(chk, repo):
             v.eq(a.get("mesh"), v.spec("self.mesh"))
         chk.ob("field.Field.__getattr__::component-column", ok, "C02.D6",
                f"value={v.show(val)}; expected self.array[..., vdims.index(attr), newaxis] on self.mesh", v.f, r)
-        conds = v.cfg.path_condition(r)
-        okc = any(pol and v.eq(v.ev.term(c_, at=geom._if_stmt(v, c_)), v.spec("self.vdims is not None and attr in self.vdims"))
-                  for c_, pol in conds)
+        okc = reached_iff(v, r, v.spec("self.vdims is not None and attr in self.vdims"))
         chk.ob("field.Field.__getattr__::only-for-labels", okc, "C02.D6",
                "component access must be limited to names in self.vdims", v.f, r)
     removed = v.spec("self._removed_attributes")
